@@ -1265,7 +1265,7 @@ class C16(DirectSpec):
     def floors(self, tier):
         fl = [(f"pair.inner={a}.outer={b}", 1, "ordered pair of wrapper kinds") for a in ("count", "cutoff", "prec", "stats") for b in ("count", "cutoff", "prec", "stats")]
         n = self.sizes[tier]
-        fl += [("late_wrapped_stacks", 20, "outermost wrapper constructed around an already used stack")]
+        fl += [("late_wrapped_stacks", 20, "outermost wrapper constructed around an already used stack"), ("sequences_of_more_than_100000_calls", 2, "call sequences of more than 100 000 calls through one stack")]
         fl += [("C16.real_stack_checks", 20, "wrapper stacks of real runs checked"), ("C16.real_stack_checks_with_saturated_cutoff", 1, "real stack with a saturated cutoff")]
         fl += [("sequences_with_calls_past_cutoff", n // 10, "calls past the cutoff in >=10% of sequences"), ("sequences_with_repeated_precision_hits", n // 10, "repeated precision hits in >=10% of sequences")]
         return fl
